@@ -8,6 +8,12 @@ CONSTANTS
  DelAll = FALSE
  GridMargin = 1
  PairGrid = 3
+ AnisoBases = {"tetra","prism","octa","hexprism"}
+ AnisoFactors = {10, 400, 10000}
+ AnisoBigFactors = {400}
+ AnisoPairs = FALSE
+ AnisoRewind = FALSE
+ AnisoDupFaces = 8
 SPECIFICATION Spec
 VIEW View
 INVARIANT TypeOK
@@ -16,5 +22,6 @@ INVARIANT CompsAgree
 INVARIANT RefOK
 INVARIANT PairTruth
 INVARIANT ObsOK
+INVARIANT StretchInvariant
 PROPERTY StepOK
 CHECK_DEADLOCK FALSE
